@@ -2,6 +2,8 @@ use crate::runner::{Ctx, DynProp};
 
 pub mod c01;
 pub mod c02;
+pub mod c03;
+pub mod c04;
 pub mod c05;
 pub mod c08;
 pub mod c09;
@@ -9,6 +11,7 @@ pub mod c10;
 pub mod c11;
 pub mod c12;
 pub mod c13;
+pub mod c15;
 pub mod c20;
 pub mod cli;
 
@@ -35,6 +38,8 @@ pub fn plan(ctx: &Ctx) -> Option<Plan> {
     match ctx.id.as_str() {
         "C01" => Some(c01::plan(ctx)),
         "C02" => Some(c02::plan(ctx)),
+        "C03" => Some(c03::plan(ctx)),
+        "C04" => Some(c04::plan(ctx)),
         "C05" => Some(c05::plan(ctx)),
         "C08" => Some(c08::plan(ctx)),
         "C09" => Some(c09::plan(ctx)),
@@ -42,6 +47,7 @@ pub fn plan(ctx: &Ctx) -> Option<Plan> {
         "C11" => Some(c11::plan(ctx)),
         "C12" => Some(c12::plan(ctx)),
         "C13" => Some(c13::plan(ctx)),
+        "C15" => Some(c15::plan(ctx)),
         "C20" => Some(c20::plan(ctx)),
         _ => None,
     }
